@@ -248,10 +248,12 @@ func extraPkgs(rel string) []string {
 }
 
 var pkgDeps = map[string][]string{
-	"pkg/partition":            {"pkg/convert"},
-	"banyand/internal/storage": {"pkg/timestamp"},
-	"pkg/encoding":             {"pkg/encoding/vararray"},
-	"pkg/filter":               {"pkg/encoding", "pkg/encoding/vararray"},
+	"pkg/partition":             {"pkg/convert"},
+	"banyand/internal/storage":  {"pkg/timestamp"},
+	"pkg/encoding":              {"pkg/encoding/vararray"},
+	"pkg/query/logical/measure": {"pkg/query/executor"},
+	"pkg/query/logical/trace":   {"pkg/iter"},
+	"pkg/filter":                {"pkg/encoding", "pkg/encoding/vararray"},
 }
 
 func cmdReplay(args []string) int   { fmt.Println("replay: not implemented yet"); return 2 }
